@@ -9,6 +9,16 @@ RW = "bigtools/src/bbi/bigwigread.rs"
 RB = "bigtools/src/bbi/bigbedread.rs"
 
 
+def stmt_or_for(n):
+    """'for' when n is (part of) the iterator expression of a for loop"""
+    x = n
+    while x is not None and isinstance(x, Node) and x.k == "mcall":
+        if x.parent is not None and isinstance(x.parent, Node) and x.parent.k == "for" and x.pkey == "iter":
+            return "for"
+        x = x.parent
+    return None
+
+
 def ob_search_order(ctx, res):
     """C03-O1 / C05-O1: children visited depth-first in stored order; blocks appended in visit order"""
     fn = ctx.ast.fn(R, "next", impl="CirTreeBlockSearchIter")
@@ -51,9 +61,38 @@ def ob_search_order(ctx, res):
     res.ok(si, "search_cir_tree_inner: root first, blocks appended in visit order, query carried unchanged")
     # nodes_overlapping pushes in iteration order
     no = ctx.ast.fn(R, "nodes_overlapping")
-    loops = [n for n in walk_no_nested_fn(no.body) if n.k == "for"]
-    if len(loops) != 2 or any(up(strip(l["iter"])) != "iter" for l in loops):
-        res.fail("searchOrder/nodes", no, "both node kinds must scan their items in stored order")
+    ORDER_KEEPING = {"filter", "map", "filter_map", "collect", "cloned", "copied", "into_iter", "iter", "by_ref", "inspect", "map_while", "flatten", "flat_map", "for_each", "extend"}
+    scans, bad, unknown = 0, None, None
+    for x in walk_no_nested_fn(no.body):
+        if x.k == "for":
+            base = strip(x["iter"])
+            meths = []
+            while base.k == "mcall":
+                meths.append(base["method"])
+                base = strip(base["recv"])
+            if base.k == "path" and base["path"] == "iter":
+                scans += 1
+                wrong = [m_ for m_ in meths if m_ not in ORDER_KEEPING]
+                if wrong:
+                    bad = (x, wrong[0])
+        elif x.k == "path" and x["path"] == "iter" and x.parent is not None and x.parent.k == "mcall" and strip(x.parent["recv"]) is x:
+            meths, y = [], x.parent
+            while y is not None and isinstance(y, Node) and y.k == "mcall":
+                meths.append(y["method"])
+                y = y.parent if (y.parent is not None and isinstance(y.parent, Node) and y.parent.k == "mcall" and strip(y.parent["recv"]) is y) else None
+            top = x.parent
+            if stmt_or_for(top) == "for":
+                continue        # counted above
+            scans += 1
+            wrong = [m_ for m_ in meths if m_ not in ORDER_KEEPING]
+            if wrong and wrong[0] in ("rev", "sorted", "sorted_by", "sorted_by_key", "step_by", "skip", "take", "skip_while", "take_while", "last", "nth", "next", "find", "max_by_key", "min_by_key"):
+                bad = (x.parent, wrong[0])
+            elif wrong:
+                unknown = (x.parent, wrong[0])
+    if bad:
+        res.fail("searchOrder/nodes", bad[0], "both node kinds must scan ALL their items in stored order; the scan uses `.%s(..)`" % bad[1])
+    elif unknown or scans != 2:
+        res.undecided("searchOrder/nodes", (unknown or (no,))[0], "item scans of the two node kinds not recognised (%d scans found%s)" % (scans, ", adaptor `%s`" % unknown[1] if unknown else ""))
     else:
         res.ok(no, "leaf and non-leaf items scanned in stored order; kept items pushed in that order")
     # search_cir_tree resolves the chromosome by exact name and passes the index location
@@ -180,52 +219,88 @@ def ob_interval_siblings(ctx, res):
             res.fail("intervalSiblings/%s/iter" % ty, fn, "the iterator must carry the blocks in search order and the query range")
             continue
         res.ok(fn, "%s::get_interval: full-data index searched with (chrom, start, end); iterator carries blocks in order and the range" % ty)
-    # iterators: blocks consumed front to back, one block's values exhausted before the next
+    # iterators: blocks consumed front to back, one block's values exhausted before the next.  next() is evaluated (finite abstract interpretation: blocks,
+    # values and errors are opaque atoms; the block list, the per-block value iterators and the decoder are mocked) on every 3-block scenario
+    # whose blocks decode to (two values | no value in range | [bigWig] Ok(None) | a decode error).  In particular a block that holds no value in range
+    # (the index search is inclusive, so a block merely touching the range is returned) must not end the iteration.
+    import itertools
+    from ..rules.interp import Interp, NotPure
     for file, ty, dec in ((RW, "BigWigIntervalIter", "get_block_values"), (RB, "BigBedIntervalIter", "get_block_entries"), (R, "ZoomIntervalIter", "get_zoom_block_values")):
         fn = ctx.ast.fn(file, "next", impl=ty)
-        t = up(fn.body)
-        if "self.blocks.next()?" not in t or t.count(dec + "(") != 1 or "vals.next()" not in t:
-            res.fail("intervalSiblings/%s/next" % ty, fn, "iterator must drain the current block's values, then take the next block in order")
+        sd = ctx.ast.struct(file, ty)
+        fields = [f["name"] for f in sd["fields"]]
+        if "vals" not in fields or "blocks" not in fields or "start" not in fields or "end" not in fields:
+            res.undecided("intervalSiblings/%s/state" % ty, sd, "iterator state (vals, blocks, start, end, ..) not recognised: %s" % fields)
             continue
-        # exits: a value of the current block, exhaustion of the block list, or a decode error - nothing else ends or leaves the loop.
-        # In particular a block that holds no value in range (the index search is inclusive, so a block merely touching the range is
-        # returned) must not end the iteration.
-        body = fn.body
-        tail = body["stmts"][-1] if body["stmts"] else None
-        if tail is None or strip(tail["e"] if tail.k == "expr_stmt" else tail).k != "loop":
-            res.fail("intervalSiblings/%s/loop" % ty, fn, "next() must be one loop over (current block's values | next block)")
-            continue
-        bad = None
-        for n in walk_no_nested_fn(body):
-            if n.k == "try" and up(strip(n["e"])) != "self.blocks.next()":
-                bad = (n, "`?` on `%s` ends the iteration although blocks may remain" % up(strip(n["e"])))
-            elif n.k == "break":
-                bad = (n, "break leaves the block loop")
-            elif n.k == "return":
-                r = up(strip(n["e"])) if n.get("e") is not None else ""
-                m = re.fullmatch(r"Some\((Ok|Err)\((\w+)\)\)", r)
-                arm = n.parent
-                while arm is not None and isinstance(arm, Node) and arm.k != "arm":
-                    arm = arm.parent
-                okr = False
-                if m and arm is not None:
-                    pat = up(arm["pat"])
-                    mt = arm.parent
-                    while mt is not None and isinstance(mt, Node) and mt.k != "match":
-                        mt = mt.parent
-                    sc = up(strip(mt["scrut"])) if mt is not None else ""
-                    if m.group(1) == "Ok" and pat == "Some(%s)" % m.group(2) and re.fullmatch(r"\w+\.next\(\)", sc):
-                        okr = True
-                    if m.group(1) == "Err" and pat == "Err(%s)" % m.group(2) and sc.startswith(dec + "("):
-                        okr = True
-                if not okr:
-                    bad = (n, "unexpected exit `return %s`: only a value of the current block or a decode error may be returned" % r)
-            if bad:
+        kinds = ["two", "empty", "err"] + (["none"] if ty == "BigWigIntervalIter" else [])
+        rows, failed = 0, False
+        for scen in itertools.product(kinds, repeat=3):
+            blocks = ["B1", "B2", "B3"]
+            decoded = []
+
+            def mkiter(items):
+                return {"__ref": True, "items": list(items), "pos": 0}
+
+            def method(m, recv, args):
+                if m == "next" and isinstance(recv, dict) and "items" in recv and not args:
+                    if recv["pos"] < len(recv["items"]):
+                        recv["pos"] += 1
+                        return ("some", recv["items"][recv["pos"] - 1])
+                    return None
+                if m in ("borrow_mut", "borrow", "by_ref", "as_mut") and not args:
+                    return recv
+                raise NotPure("method " + m)
+
+            def decoder(*args, scen=scen, decoded=decoded):
+                blk = args[1]
+                decoded.append(args)
+                k = scen[blocks.index(blk)] if blk in blocks else "err"
+                if k == "two":
+                    return ("some", ("some", mkiter([blk + ".v1", blk + ".v2"])) if ty == "BigWigIntervalIter" else mkiter([blk + ".v1", blk + ".v2"]))
+                if k == "empty":
+                    return ("some", ("some", mkiter([])) if ty == "BigWigIntervalIter" else mkiter([]))
+                if k == "none":
+                    return ("some", None)
+                return ("err", "E:" + blk)
+            me = {"__ref": True}
+            for f in fields:
+                me[f] = "F:" + f
+            me["vals"] = None
+            me["blocks"] = mkiter(blocks)
+            want = []
+            for blk, k in zip(blocks, scen):
+                if k == "two":
+                    want += [("some", ("some", blk + ".v1")), ("some", ("some", blk + ".v2"))]
+                elif k == "err":
+                    want.append(("some", ("err", "E:" + blk)))
+                    break
+            else:
+                want.append(None)
+            got = []
+            try:
+                for _ in range(len(want)):
+                    it = Interp(ctx.ast, file, extern={"None": None, "method": method, dec: decoder, "call": lambda pth, a: decoder(*a) if pth.split("::")[-1] == dec else NotImplemented}, max_steps=5000)
+                    got.append(it.call(fn, [me]))
+            except NotPure as e:
+                res.undecided("intervalSiblings/%s/not-evaluable" % ty, fn, "%s::next is outside the fragment the rule evaluates (%s)" % (ty, e))
+                failed = True
                 break
-        if bad:
-            res.fail("intervalSiblings/%s/exits" % ty, bad[0], bad[1])
-            continue
-        res.ok(fn, "%s::next: current block's values first, then blocks.next() (search order), decoded by %s; exits only with a block value, a decode error, or when the block list is exhausted" % (ty, dec))
+            rows += 1
+            if got != want:
+                res.fail("intervalSiblings/%s/exits" % ty, fn, "%s::next: for three blocks decoding to %s the iterator yields %s, required %s (a block's values first and in order, then the next block; "
+                                                               "blocks without a value in range are skipped; a decode error is yielded)" % (ty, list(scen), got, want))
+                failed = True
+                break
+            for i, a_ in enumerate(decoded):
+                if a_[1] != blocks[i] or list(a_[-2:]) != ["F:start", "F:end"]:
+                    res.fail("intervalSiblings/%s/decode-args" % ty, fn, "%s::next must decode the blocks in search order with the iterator's own (start, end); call %d got %s" % (ty, i + 1, list(a_[1:])))
+                    failed = True
+                    break
+            if failed:
+                break
+        if not failed:
+            res.ok(fn, "%s::next evaluated on %d three-block scenarios: current block's values first, then blocks.next() (search order), decoded by %s with the query range; "
+                       "exits only with a block value, a decode error, or when the block list is exhausted" % (ty, rows, dec))
 
 
 def ob_values_array(ctx, res):
